@@ -100,20 +100,21 @@ Definition fn_args (args : list tok) : list tok :=
   filter (fun t => negb (is_ws t) && negb (is_comma t)) args.
 
 (* utils.check_var_function(token) is truthy.
-   var( first-argument ...) counts when the first argument is an ident starting with "--" (the other
-   arguments are not looked at); any other function counts when one of its arguments does.
-   Blocks ( ) [ ] { } are not searched, a function that parse_function rejects is not searched. *)
+   args = remove_whitespace(token.arguments).  var( name [, anything]? ) counts when the name is an ident starting
+   with "--" that is alone or followed by a comma (the fallback may be empty); any other function counts when one
+   of its arguments does.  Blocks ( ) [ ] { } are not searched. *)
 Fixpoint has_var (t : tok) : bool :=
   match t with
   | TFunc _ ln args =>
-      if fn_ok t then
-        let a := fn_args args in
-        if String.eqb ln "var" && negb (match a with [] => true | _ => false end) then
-          match a with TIdent v _ :: _ => prefix "--" v | _ => false end
-        else
-          (fix any (l : list tok) : bool :=
-             match l with [] => false | x :: r => has_var x || any r end) args
-      else false
+      let a := remove_whitespace args in
+      if String.eqb ln "var" && negb (match a with [] => true | _ => false end) then
+        match a with
+        | TIdent v _ :: rest => prefix "--" v && match rest with [] => true | second :: _ => is_comma second end
+        | _ => false
+        end
+      else
+        (fix any (l : list tok) : bool :=
+           match l with [] => false | x :: r => has_var x || any r end) args
   | _ => false
   end.
 
